@@ -222,6 +222,7 @@ def analyse(prog, ctx_cfg) -> list:
                             if x not in seen:
                                 seen.add(x)
                                 frontier.append(x)
+            variant = None
             is_local_cache = isinstance(cache, ast.Name) and cache.id not in f.params and \
                 any(d.kind != 'entry' for d in cfg.reaching(node, cache.id))
             if is_local_cache:
@@ -249,6 +250,11 @@ def analyse(prog, ctx_cfg) -> list:
                 for d in cfg.reaching(node, m):
                     if d.kind == 'stmt' and isinstance(d.ast, ast.Assign) and _names(d.ast.value) and \
                             _names(d.ast.value) <= key_names | {f.self_name or ''}:
+                        derived = True
+                    # a per-call cache: what does not change from one loop iteration to the next (the language graph,
+                    # the factory) needs no place in the key
+                    if variant is not None and d.kind == 'stmt' and isinstance(d.ast, ast.Assign) and _names(d.ast.value) and \
+                            all(x in key_names or x not in variant for x in _names(d.ast.value)):
                         derived = True
                 if not derived:
                     really.append(m)
